@@ -96,6 +96,7 @@ type world struct {
 	qmu     sync.Mutex
 	queue   []time.Time // arrival times of coalesced events not yet handled
 	cancel  context.CancelFunc
+	roots   []string
 }
 
 var watchPattern = regexp.MustCompile(`(.+\.go$)|(.+\.templ$)`)
@@ -138,6 +139,48 @@ func (w *world) note(format string, a ...any) {
 }
 
 var epoch0 time.Time
+
+// coldCache is what a restarted program sees: an empty literal cache. The cache is keyed by the
+// text files' paths, so the files move to a fresh root directory (no access to its internals).
+func (w *world) coldCache() {
+	old := os.Getenv("TEMPL_DEV_MODE_ROOT")
+	root, err := os.MkdirTemp(os.Getenv("VSIM_TMP"), "devroot-")
+	if err != nil {
+		w.rc.Fail("harness", "%v", err)
+		return
+	}
+	ents, _ := os.ReadDir(old)
+	for _, e := range ents {
+		b, err := os.ReadFile(filepath.Join(old, e.Name()))
+		if err != nil {
+			continue
+		}
+		os.WriteFile(filepath.Join(root, e.Name()), b, 0o644)
+		if fi, err := e.Info(); err == nil {
+			os.Chtimes(filepath.Join(root, e.Name()), fi.ModTime(), fi.ModTime())
+		}
+	}
+	os.Setenv("TEMPL_DEV_MODE_ROOT", root)
+	w.roots = append(w.roots, root)
+}
+
+// stampTextFiles gives every file in the development-mode root that was written during the last
+// handler call a modification time from the fake clock, however the handler wrote it (WriteFile
+// is stamped by the disk shim already; temp-file-and-rename or Create+Write are not).
+func (w *world) stampTextFiles() {
+	root := os.Getenv("TEMPL_DEV_MODE_ROOT")
+	ents, _ := os.ReadDir(root)
+	now := time.Now()
+	for _, e := range ents {
+		fi, err := e.Info()
+		if err != nil || e.IsDir() {
+			continue
+		}
+		if fi.ModTime().Year() > 2010 { // the fake clock lives in the year 2000
+			os.Chtimes(filepath.Join(root, e.Name()), now, now)
+		}
+	}
+}
 
 func (w *world) newHandler() {
 	log := slog.New(slog.NewTextHandler(io.Discard, nil))
@@ -201,6 +244,7 @@ func (w *world) watch() (generatecmd.GenerateResult, error) {
 	}
 	w.osCalls, w.midSaved, w.readVar = 0, false, -2
 	r, err := w.h.HandleEvent(context.Background(), fsnotify.Event{Name: w.path(w.c), Op: fsnotify.Write})
+	w.stampTextFiles()
 	w.midAt = -1
 	w.pending = w.midSaved // a save that landed meanwhile has its own event coming
 	if w.midSaved {
@@ -237,7 +281,7 @@ func (w *world) rebuild() {
 	}
 	w.note("rebuild+restart: compiled variant is now v%d", j)
 	w.c = j
-	templruntime.ResetWatchCache()
+	w.coldCache()
 	// the file lives at the new variant's compile-time path from now on; give the
 	// long-running handler the state it would have for that path
 	w.writeSource(j, w.fam.Variants[j].Source)
@@ -393,7 +437,7 @@ func (w *world) run() {
 			w.check("render")
 		case 4:
 			w.note("restart app")
-			templruntime.ResetWatchCache()
+			w.coldCache()
 			w.k.Count("fault_app_restart", 1)
 		case 5:
 			w.note("restart watcher")
@@ -456,7 +500,6 @@ func simWorld(rc *kernel.RunCtx) {
 		rc.Fail("harness", "%v", err)
 		return
 	}
-	defer os.RemoveAll(root)
 	os.Setenv("TEMPL_DEV_MODE_ROOT", root)
 	w := &world{rc: rc, k: k, t: t, fam: families[t.Choose(len(families), "family")], midAt: -1, readVar: -2}
 	var simDur time.Duration
@@ -473,6 +516,10 @@ func simWorld(rc *kernel.RunCtx) {
 		simDur = time.Since(start)
 	})
 	templruntime.SetDevelopmentMode(false)
+	os.RemoveAll(root)
+	for _, r := range w.roots {
+		os.RemoveAll(r)
+	}
 	if esc != "" && !rc.Failed() {
 		rc.Fail("C16/panic", "%s", kernel.FirstLines(esc, 10))
 	}
